@@ -56,13 +56,10 @@ func vpH_C54_query_faults() {
 		}
 		qs[id] = q
 	}
-	// what NewMergeQuerier builds for 1 primary + 2 secondaries, with the sequential Select path
-	// (NewMergeQuerier would pick the goroutine fan-out, which the engine does not model)
-	mq := &querierAdapter{&mergeGenericQuerier{
-		mergeFn:          (&seriesMergerAdapter{VerticalSeriesMergeFunc: ChainedSeriesMerge}).Merge,
-		queriers:         []genericQuerier{newGenericQuerierFrom(qs[0]), newSecondaryQuerierFrom(qs[1]), newSecondaryQuerierFrom(qs[2])},
-		concurrentSelect: false,
-	}}
+	// the real NewMergeQuerier for 1 primary + 2 secondaries, switched to its sequential Select path
+	// (it would pick the goroutine fan-out, which the engine does not model)
+	mq := NewMergeQuerier([]Querier{qs[0]}, []Querier{qs[1], qs[2]}, ChainedSeriesMerge)
+	mq.(*querierAdapter).genericQuerier.(*mergeGenericQuerier).concurrentSelect = false
 	ss := mq.Select(context.Background(), true, nil)
 	var gotNames []string
 	var gotTs [][]int64
